@@ -23,7 +23,8 @@ RULE = ("case = initial configuration model (1-3 watchers: cmd, "
         "working_dir, streams, autostart, per-watcher env section; "
         "optionally [env], a managed socket, a plugin) + 1-6 edits from {add watcher, remove "
         "watcher, set one field to a value from a small pool (so reverts to "
-        "earlier values occur), [env] edit, worker death, no-op}, each followed by reloadconfig "
+        "earlier values occur), [env] edit, worker death, no-op}, each (or a "
+        "batch of several, a quarter are held back for the next) followed by reloadconfig "
         "(waiting) and a drain.  Non-trivial = >= 2 successive reloads with "
         "an edit between them; distinct by hash of the case; reverts are "
         "counted as a class.")
@@ -148,10 +149,17 @@ def _execute(case, environ0):
         plug_pids = dict(('plugin:%s' % pl["name"],
                           sorted(w.eff_live('plugin:%s' % pl["name"])))
                          for pl in model.get("plugins") or [])
+        held_before = None
         for ed in case["edits"]:
             if viols or w.dead or w.exited:
                 break
-            before = copy.deepcopy(model)
+            # an edit marked "hold" is written with the next one: several
+            # edits reach the daemon in ONE reloadconfig
+            hold = bool(ed) and ed[-1] == 'hold'
+            if hold:
+                ed = ed[:-1]
+            before = held_before if held_before is not None \
+                else copy.deepcopy(model)
             kind = ed[0]
             if kind == 'genv':
                 g = dict(model.get("genv") or {})
@@ -198,9 +206,14 @@ def _execute(case, environ0):
                 model["watchers"][ed[1]][ed[2]] = ed[3]
                 if len(history) >= 2 and ed[1] in history[-2]["watchers"] \
                         and history[-2]["watchers"][ed[1]].get(ed[2]) == \
-                        ed[3] and before["watchers"][ed[1]].get(ed[2]) != \
-                        ed[3]:
+                        ed[3] and ed[1] in before["watchers"] and \
+                        before["watchers"][ed[1]].get(ed[2]) != ed[3]:
                     classes.add('revert')
+            if hold:
+                held_before = before
+                classes.add('several-edits-in-one-reload')
+                continue
+            held_before = None
             with open(cfg, 'w') as f:
                 f.write(render(model))
             history.append(copy.deepcopy(model))
@@ -400,18 +413,19 @@ def _strategy():
                 edits.append(['genv', draw(st.sampled_from(['GV', 'GW'])),
                               draw(st.sampled_from([None, '1', '2']))])
                 continue
+            hold = ['hold'] if draw(st.integers(0, 3)) == 0 else []
             if kind == 'set':
                 field = draw(st.sampled_from(
                     ['numprocesses', 'numprocesses', 'numprocesses', 'cmd',
                      'graceful_timeout', 'priority', 'myopt', 'env',
                      'stream', 'args', 'working_dir', 'autostart']))
                 edits.append(['set', draw(st.sampled_from(names)), field,
-                              draw(st.sampled_from(FIELDS[field]))])
+                              draw(st.sampled_from(FIELDS[field]))] + hold)
             elif kind == 'add':
                 edits.append(['add', draw(st.sampled_from(names)),
-                              draw(spec())])
+                              draw(spec())] + hold)
             elif kind == 'remove':
-                edits.append(['remove', draw(st.sampled_from(names))])
+                edits.append(['remove', draw(st.sampled_from(names))] + hold)
             elif kind == 'revert':
                 edits.append(['revert', draw(st.integers(0, 2))])
             else:
